@@ -4,13 +4,15 @@ Import ListNotations.
 Open Scope Z_scope.
 
 (* route (ops 1, 2): see `op` below.
-   op 1 basic : [1; VB Authorization; VZ decoded_ok; VB decoded; VL [[VB user; VZ password_matches_hash; VB hash] ...]; VZ route]
+   op 1 basic : [1; VB Authorization; VZ decoded_ok; VB decoded; VL [[VB user; VZ password_matches_hash; VB hash; VZ line style] ...]; VZ route]
                                                                                       => [accepted; status]
    op 2 jwt   : [2; VB Authorization; VZ malformed; VZ alg; VL [[kind value] x3] (exp iat nbf); VZ now;
                  VL [[kty declared_alg signature_verifies] ...]; VZ route; key-set id (opaque)]   => [accepted; status]
    op 3 link  : [3; VZ has_expires_key; VB expires; VB checksum; VB md5 digest; VZ now; label; host; query value v;
                  mode (opaque; 1 = expires and now are relative to the wall clock at the time of the call)]
                                                                                       => error code 0..5
+   op 5 load  : [5; VL [[VZ has_global; VL rules; VZ has_product; VL rules] ...]] one rule file per step, rule =
+                 [cond; has_cmd; VB cmd; nparams; name] (see frule)            => [[loaded; request closed] per step]
    op 4 block : [4; VZ ip_in_global_table; VZ has_global_rules; VL [[match cmd] ...]; VZ has_product_rules;
                  VL [[match cmd] ...]; blocklist; client (opaque)]                    => [conn_refused; req_closed] *)
 Definition b (z : Z) : bool := negb (z =? 0).
@@ -28,7 +30,7 @@ Definition dec_key (v : val) : option jkey :=
   match v with VL [VZ t; VZ a; VZ ok] => Some {| k_kty := t; k_alg := a; k_sig_ok := b ok |} | _ => None end.
 Definition dec_keys (v : val) : option (list jkey) := match v with VL l => all_some (map dec_key l) | _ => None end.
 Definition dec_user (v : val) : option (bytes * bool) :=
-  match v with VL [VB n; VZ ok; VB _] => Some (n, b ok) | _ => None end.   (* third column: the stored hash, opaque *)
+  match v with VL [VB n; VZ ok; VB _; VZ _] => Some (n, b ok) | _ => None end.   (* 3rd/4th column: stored hash and the spelling of the user-file line, opaque *)
 Definition dec_users (v : val) : option (list (bytes * bool)) := match v with VL l => all_some (map dec_user l) | _ => None end.
 Definition dec_rule (v : val) : option (bool * Z) := match v with VL [VZ m; VZ c] => Some (b m, c) | _ => None end.
 Definition dec_rules (has : Z) (v : val) : option (option (list (bool * Z))) :=
@@ -43,9 +45,25 @@ Inductive op :=
 | OBasic (auth : bytes) (decoded : option bytes) (users : list (bytes * bool)) (route : Z)
 | OJwt (auth : bytes) (mal : bool) (alg : Z) (c : claims) (now : Z) (keys : list jkey) (route : Z)
 | OLink (he : bool) (expires checksum digest : bytes) (now : Z)
-| OBlock (inT : bool) (g p : option (list (bool * Z))).
+| OBlock (inT : bool) (g p : option (list (bool * Z)))
+| OBlockLoad (files : list ffile).
+Definition dec_frule (v : val) : option frule :=
+  match v with
+  | VL [VZ cd; VZ hc; VB cmd; VZ np; VZ nm] =>
+    Some {| fr_cond := cd; fr_has_cmd := b hc; fr_cmd := cmd; fr_nparams := np; fr_name := nm |}
+  | _ => None
+  end.
+Definition dec_frules (has : Z) (v : val) : option (option (list frule)) :=
+  match v with VL l => match all_some (map dec_frule l) with Some r => Some (if b has then Some r else None) | None => None end
+  | _ => None end.
+Definition dec_ffile (v : val) : option ffile :=
+  match v with
+  | VL [VZ hg; g; VZ hp; p] => match dec_frules hg g, dec_frules hp p with Some g', Some p' => Some (g', p') | _, _ => None end
+  | _ => None
+  end.
 Definition dec_C51 (i : val) : option op :=
   match i with
+  | VL [VZ 5; VL fs] => match all_some (map dec_ffile fs) with Some files => Some (OBlockLoad files) | None => None end
   | VL [VZ 1; VB auth; VZ dok; VB dec; us; VZ route] =>
     match dec_users us with
     | Some users => Some (OBasic auth (if b dok then Some dec else None) users route)
@@ -72,6 +90,7 @@ Definition run_op (o : op) : val :=
   | OJwt auth mal alg c now keys route => verdict (negb (covered route) || jwt_accept auth mal alg c now keys)
   | OLink he expires checksum digest now => VZ (secure_link he expires checksum digest now)
   | OBlock inT g p => VL [vbool (global_block inT); vbool (product_block g p)]
+  | OBlockLoad files => VL (map (fun lc => VL [vbool (fst lc); vbool (snd lc)]) (block_steps (None, None) files))
   end.
 Definition run_C51 (i : val) : val := match dec_C51 i with Some o => run_op o | None => VErr 0 end.
 Definition agree_C51 (i o : val) : bool := val_eqb (run_C51 i) o.
@@ -114,6 +133,32 @@ Definition decisive (rules : option (list (bool * Z))) : option Z :=
   end.
 Definition is_verdict (o : val) (ok : bool) : bool := val_eqb o (verdict ok).
 
+(* rule files: "a file either fails to load or every loaded rule is enforced".  What a rule means is read
+   case-insensitively here: a rule whose command is some spelling of close/allow and that got loaded must act as such. *)
+Definition ci_cmd (cmd : bytes) : option Z :=
+  if eq_fold cmd CLOSE_ then Some 1 else if eq_fold cmd ALLOW_ then Some 0 else None.
+Definition spec_rule (r : frule) : option (bool * Z) :=
+  match ci_cmd (fr_cmd r) with
+  | Some c => if (fr_cond r =? 0) || (fr_cond r =? 1) then Some (fr_cond r =? 1, c) else None
+  | None => None
+  end.
+Definition spec_list (l : option (list frule)) : option (option (list (bool * Z))) :=
+  match l with None => Some None | Some rs => option_map Some (all_some (map spec_rule rs)) end.
+Definition spec_table (f : ffile) : option (option (list (bool * Z)) * option (list (bool * Z))) :=
+  match spec_list (fst f), spec_list (snd f) with Some g, Some p => Some (g, p) | _, _ => None end.
+Fixpoint prop_steps (tbl : option (list (bool * Z)) * option (list (bool * Z))) (files : list ffile) (obs : list val) : bool :=
+  match files, obs with
+  | [], [] => true
+  | f :: r, VL [VZ loaded; VZ closed] :: obs' =>
+    if b loaded then
+      match spec_table f with
+      | Some t => Bool.eqb (b closed) (product_block (fst t) (snd t)) && prop_steps t r obs'
+      | None => false                       (* a rule that cannot be enforced was loaded *)
+      end
+    else Bool.eqb (b closed) (product_block (fst tbl) (snd tbl)) && prop_steps tbl r obs'
+  | _, _ => false
+  end.
+
 Definition prop_op (x : op) (o : val) : bool :=
   match x with
   | OBasic auth decoded users route =>
@@ -133,6 +178,7 @@ Definition prop_op (x : op) (o : val) : bool :=
                            match decisive p with Some c => c =? 1 | None => false end end)
     | _ => false
     end
+  | OBlockLoad files => match o with VL obs => prop_steps (None, None) files obs | _ => false end
   end.
 Definition prop_C51 (i o : val) : bool := match dec_C51 i with Some x => prop_op x o | None => false end.
 
